@@ -611,14 +611,26 @@ impl<T: serde::Serialize> serde::Serialize for BTreeSet<T> {
 // ------------------------------------------------------------------------------------------------
 // HashMap: association list (unique keys by Eq, insertion order)
 
-pub struct HashMap<K, V, S = std::collections::hash_map::RandomState> {
+/// Default hasher-state parameter of the modelled hash containers: never consulted, and - unlike
+/// `std::collections::hash_map::RandomState::new()` - built without the getrandom syscall.
+#[derive(Clone, Copy, Debug, Default)]
+pub struct ModelRandomState;
+impl std::hash::BuildHasher for ModelRandomState {
+    type Hasher = std::collections::hash_map::DefaultHasher;
+    fn build_hasher(&self) -> Self::Hasher {
+        std::collections::hash_map::DefaultHasher::new()
+    }
+}
+
+pub struct HashMap<K, V, S = ModelRandomState> {
     e: Vec<(K, V)>,
     s: S,
 }
 
 pub mod hash_map {
     pub use super::HashMap;
-    pub use std::collections::hash_map::{DefaultHasher, RandomState};
+    pub use super::ModelRandomState as RandomState;
+    pub use std::collections::hash_map::DefaultHasher;
     pub struct Iter<'a, K, V> {
         pub(super) it: std::slice::Iter<'a, (K, V)>,
     }
@@ -724,7 +736,7 @@ pub mod hash_map {
     }
 }
 
-impl<K, V> HashMap<K, V, std::collections::hash_map::RandomState> {
+impl<K, V> HashMap<K, V, ModelRandomState> {
     pub fn new() -> Self {
         HashMap { e: Vec::new(), s: Default::default() }
     }
@@ -934,7 +946,7 @@ impl<'de, K: Eq + serde::Deserialize<'de>, V: serde::Deserialize<'de>, H: Defaul
 // ------------------------------------------------------------------------------------------------
 // HashSet: vector without duplicates (by Eq), insertion order
 
-pub struct HashSet<T, S = std::collections::hash_map::RandomState> {
+pub struct HashSet<T, S = ModelRandomState> {
     e: Vec<T>,
     s: S,
 }
@@ -960,7 +972,7 @@ pub mod hash_set {
     }
 }
 
-impl<T> HashSet<T, std::collections::hash_map::RandomState> {
+impl<T> HashSet<T, ModelRandomState> {
     pub fn new() -> Self {
         HashSet { e: Vec::new(), s: Default::default() }
     }
